@@ -73,7 +73,7 @@ def build(X):
     # ---- `!{..}` : std.not applied to a tuple
     f = X.fn(EXPR_RS, "fold_expr", after="impl pl::PlFold for Resolver")
     src = f.text
-    m = re.search(r"pl::ExprKind::FuncCall\(pl::FuncCall \{ name, args, \.\. \}\)\s*if (.*?)=>\s*\{", src, re.S)
+    m = re.search(r"pl::ExprKind::FuncCall\(pl::FuncCall \{\s*name,\s*args,\s*(?:\.\.|named_args,?)\s*\}\)\s*if (.*?)=>\s*\{", src, re.S)
     if not m or "std.not" not in m.group(1):
         raise ExtractionError("fold_expr: the arm `FuncCall { name, args, .. } if <std.not on a tuple> => { .. }` is not where the unit expects it")
     guard = " ".join(m.group(1).split())
@@ -90,11 +90,12 @@ def build(X):
                        "fn exclusion_arg(is_std_not, args) -> Option<arg>; the arm not being taken is None"})
     f.rewrite_re("R5", r"\(name\.kind\.as_ident\(\)\)\s*\.is_some_and\(\|i\| i\.to_string\(\) == \"std\.not\"\)", "is_std_not", count=1, why="the callee is std.not: a parameter of the slice")
     f.rewrite_re("R5", r"\bargs\.into_iter\(\)\.exactly_one\(\)", "exactly_one(args)", count=None, why="itertools::exactly_one")
-    f.text = ("pub fn exclusion_arg(is_std_not: bool, args: Vec<pl::Expr>) -> (r: Option<pl::Expr>)\n"
+    f.rewrite_re("R5", r"\bnamed_args\.is_empty\(\)", "named_args_empty", count=None, why="HashMap::is_empty of the call's named arguments: a parameter of the slice")
+    f.text = ("pub fn exclusion_arg(is_std_not: bool, named_args_empty: bool, args: Vec<pl::Expr>) -> (r: Option<pl::Expr>)\n"
               "    requires args@.len() >= 1,\n"
               "    ensures\n"
-              "        // the exclusion form is `std.not` applied to exactly one argument, a tuple\n"
-              "        r is Some <==> (is_std_not && args@.len() == 1 && args@[0].kind is Tuple), // @XA1\n"
+              "        // the exclusion form is `std.not` applied to exactly one argument, a tuple - and nothing else: a named argument is not dropped silently\n"
+              "        r is Some <==> (is_std_not && named_args_empty && args@.len() == 1 && args@[0].kind is Tuple), // @XA1\n"
               "{\n    " + f.text + "\n}\n")
 
     # ---- relation literal: names of the columns
@@ -158,7 +159,7 @@ def build(X):
 
 # ----------------------------------------------------------------------------- replay on the real compiler
 INPUTS = {
-    "exclusion_arg": ["from t\nderive x = (std.not {a} {b})\n", "from t\nselect (std.not {a} {b})\n", "from t\nselect !{a}\n"],
+    "exclusion_arg": ["from t\nderive x = (std.not {a} {b})\n", "from t\nselect (std.not {a} {b})\n", "from t\nselect !{a}\n", "from t\nselect (std.not {a} bogus:1)\n"],
     "literal_column_name": ["from [{1, 2}]\n", "from [{a = 1, 2}]\n", "from [{a = 1, b = 2}]\n", "from t\nappend [{1}]\n"],
     "wildcard_self": ["from t\nselect {`*`}\n", "from `*`\n", "from t\nfilter `*` > 1\n", "from t\nselect {t.*}\n", "from t\nselect {x.*}\n"],
 }
